@@ -2258,6 +2258,26 @@ class Explorer:
                             continue
                     elif not self.assume_bool(s2, r, truth):
                         continue
+                    # `x.checked_sub(k)` with a small constant k on (a lossless widening of) a finite-domain value: the
+                    # outcome also bounds the value underneath (None: x in 0..k, Some: x not in 0..k)
+                    if args[1][0] == "c" and isinstance(args[1][1], int) and 0 < args[1][1] <= 8 and args[0][0] == "sym":
+                        u_ = args[0][1]
+                        for _i in range(4):
+                            if isinstance(u_, tuple) and len(u_) == 2 and u_[0] == "#":
+                                u_ = self.interned_rev.get(u_[1], u_)
+                            if isinstance(u_, tuple) and u_ and ((u_[0] == "into" and len(u_) > 2) or (u_[0] == "cast" and len(u_) > 2 and u_[2] in ("usize", "u64", "u32", "u16"))) \
+                                    and isinstance(u_[1], tuple) and u_[1] and u_[1][0] == "sym":
+                                u_ = u_[1][1]
+                            else:
+                                break
+                        okc = True
+                        if truth and args[1][1] == 1:
+                            okc = self.constrain(s2, u_, "eq", 0)
+                        elif not truth:
+                            for j_ in range(args[1][1]):
+                                okc = okc and self.constrain(s2, u_, "ne", j_)
+                        if not okc:
+                            continue
                     k2 = self.clone_stack(stack)
                     self.write_place(s2, k2[-1], dest, res_, site)
                     if target is None:
@@ -2326,20 +2346,42 @@ class Explorer:
                         and isinstance(it_[1], tuple) and it_[1] and it_[1][0] == "sym":
                     it_ = it_[1][1]                     # lossless widening of the index: decide the value underneath
                 OPT = "std::option::Option"
+                # an affine index (`kind - 1`, `kind + 1`): entry i is selected by kind == i + 1 / i - 1
+                off_ = 0
+
+                def peel(x_):
+                    while isinstance(x_, tuple) and x_ and ((x_[0] == "into" and len(x_) > 2) or (x_[0] == "cast" and len(x_) > 2 and x_[2] in ("usize", "u64", "u32", "u16"))) \
+                            and isinstance(x_[1], tuple) and x_[1] and x_[1][0] == "sym":
+                        x_ = x_[1][1]
+                    return x_
+                if isinstance(it_, tuple) and len(it_) == 2 and it_[0] == "#":
+                    it_ = self.interned_rev.get(it_[1], it_)
+                if isinstance(it_, tuple) and it_ and it_[0] == "bin" and it_[1].replace("Unchecked", "").replace("WithOverflow", "") in ("Sub", "Add") \
+                        and it_[3][0] == "c" and isinstance(it_[3][1], int):
+                    base_ = it_[2]
+                    if len(base_) == 2 and base_[0] == "#":
+                        base_ = self.interned_rev.get(base_[1], base_)
+                    if base_[0] == "sym":
+                        inner_ = base_[1]
+                        if isinstance(inner_, tuple) and len(inner_) == 2 and inner_[0] == "#":
+                            inner_ = self.interned_rev.get(inner_[1], inner_)
+                        off_ = it_[3][1] if it_[1].startswith("Sub") else -it_[3][1]
+                        it_ = peel(inner_)
                 self._cs_n = getattr(self, "_cs_n", 0) + 1
                 troot = ("CS", "table", self._cs_n)
                 alts = []
                 for i_ in range(len(tb[1]) + 1):
                     s2 = st.clone()
                     if i_ < len(tb[1]):
-                        if not self.constrain(s2, it_, "eq", i_):
+                        if i_ + off_ < 0 or not self.constrain(s2, it_, "eq", i_ + off_):
                             continue
                         s2.heap[(troot, (("ci", i_),))] = tb[1][i_]
                         val = AGG(OPT, "Some", (("ref", troot, (("ci", i_),)),))
                     else:
                         okn = True
                         for j_ in range(len(tb[1])):
-                            okn = okn and self.constrain(s2, it_, "ne", j_)
+                            if j_ + off_ >= 0:
+                                okn = okn and self.constrain(s2, it_, "ne", j_ + off_)
                         if not okn:
                             continue
                         val = AGG(OPT, "None")
